@@ -100,6 +100,20 @@ def run_case(agg, tmpdir, header, records, delim, has_header, how):
                 with open(p, "r", encoding="utf-8", newline="") as f:
                     f.readline()
                     t = read_csv(f, delimiter=delim, has_header=has_header)
+            elif how == "file-after-next":
+                # ... advanced by ITERATING (next(f), a for loop left with break): a text file refuses tell() from then on
+                with open(p, "w", encoding="utf-8", newline="") as f:
+                    f.write("# not,part,of\n" + text)
+                with open(p, "r", encoding="utf-8", newline="") as f:
+                    next(f)
+                    t = read_csv(f, delimiter=delim, has_header=has_header)
+            elif how == "pipe":
+                # a stream that cannot seek or tell at all (a pipe, as stdin of a filter program is)
+                rfd, wfd = os.pipe()
+                with os.fdopen(wfd, "w", encoding="utf-8", newline="") as w:
+                    w.write(text)
+                with os.fdopen(rfd, "r", encoding="utf-8", newline="") as f:
+                    t = read_csv(f, delimiter=delim, has_header=has_header)
             else:
                 with open(p, "r", encoding="utf-8", newline="") as f:
                     t = read_csv(f, delimiter=delim, has_header=has_header)
@@ -198,7 +212,7 @@ def run_unit(unit):
                         agg.nontrivial += 1
                     for delim in DELIMS:
                         for hh in (True, False):
-                            for how in ("stringio", "path", "file", "file-after-preamble"):
+                            for how in ("stringio", "path", "file", "file-after-preamble", "file-after-next", "pipe"):
                                 if how != "stringio" and (delim != "," or nrec == 2 and len(cells) > 12 and records[0] != records[-1]):
                                     continue
                                 run_case(agg, tmpdir, header, records, delim, hh, how)
